@@ -55,3 +55,143 @@ Proof.
   - auto.
   - auto.
 Qed.
+
+(* ---------- queries: the TagMap index over-approximates; name:value queries are exact, name-only queries are exact
+   in the states where the index is exact for that name (no key re-Put without the name since) ---------- *)
+Definition has_name (n : N) (e : entry) : bool := existsb (fun tg : tag => fst tg =? n) (snd e).
+
+(* every tag name of every stored entry is indexed *)
+Definition ldb_inv (s : ldb) : Prop :=
+  forall k e, In (k, e) (fst s) -> forall n, has_name n e = true -> in_keys (tm_get (snd s) n) k = true.
+
+(* the index is exact for name n: every indexed stored key still carries the name *)
+Definition index_exact (s : ldb) (n : N) : bool :=
+  forallb (fun ke => implb (in_keys (tm_get (snd s) n) (fst ke)) (has_name n (snd ke))) (fst s).
+
+Definition ldb_guard (s : ldb) (o : op) : bool :=
+  match o with
+  | Batch b => forallb wf_bop b && negb (has_empty_key (map bop_key (tl b)))
+  | Query [] => true
+  | Query [c] => if snd c =? 0 then index_exact s (fst c) else true
+  | Query _ => false
+  | _ => true
+  end.
+Fixpoint ldb_run_ok (s : ldb) (ops : list op) : bool :=
+  match ops with [] => true | o :: r => ldb_guard s o && ldb_run_ok (fst (ldb_step s o)) r end.
+
+Lemma in_keys_tm_add m n k n' k' :
+  in_keys (tm_get (tm_add m n k) n') k' = in_keys (tm_get m n') k' || ((n' =? n) && (k' =? k)).
+Proof.
+  induction m as [|[n0 ks] r IH]; cbn [tm_add tm_get].
+  - destruct (N.eqb_spec n' n) as [->|Hn]; cbn; [|reflexivity]. unfold in_keys. cbn. rewrite orb_false_r. reflexivity.
+  - destruct (N.eqb_spec n n0) as [->|Hn0]; cbn [tm_get].
+    + destruct (N.eqb_spec n' n0) as [->|Hn']; cbn [andb]; [|rewrite orb_false_r; reflexivity].
+      destruct (existsb (N.eqb k) ks) eqn:Ex.
+      * unfold in_keys. destruct (k' =? k) eqn:Ek; [|rewrite orb_false_r; reflexivity].
+        apply N.eqb_eq in Ek. subst k'. rewrite orb_true_r. exact Ex.
+      * unfold in_keys. cbn. apply orb_comm.
+    + destruct (N.eqb_spec n' n0) as [->|Hn'].
+      * destruct (N.eqb_spec n0 n) as [E|_]; [symmetry in E; contradiction|]. cbn. rewrite orb_false_r. reflexivity.
+      * exact IH.
+Qed.
+
+Lemma in_keys_fold_add (t : list tag) : forall m k n' k',
+  in_keys (tm_get (fold_left (fun m tg => tm_add m (fst tg) k) t m) n') k' =
+  in_keys (tm_get m n') k' || ((k' =? k) && existsb (fun tg : tag => fst tg =? n') t).
+Proof.
+  induction t as [|tg r IH]; intros m k n' k'; cbn [fold_left existsb].
+  - rewrite andb_false_r, orb_false_r. reflexivity.
+  - rewrite IH, in_keys_tm_add. rewrite (N.eqb_sym n' (fst tg)).
+    destruct (in_keys (tm_get m n') k'), (fst tg =? n'), (k' =? k), (existsb (fun tg0 : tag => fst tg0 =? n') r); reflexivity.
+Qed.
+
+Lemma in_keys_tm_del m k n k' : in_keys (tm_get (tm_del m k) n) k' = in_keys (tm_get m n) k' && negb (k' =? k).
+Proof.
+  unfold tm_del. induction m as [|[n0 ks] r IH]; cbn [map tm_get fst snd]; [reflexivity|].
+  destruct (n =? n0); [|exact IH]. unfold in_keys. clear IH. induction ks as [|x xs IHx]; cbn; [reflexivity|].
+  destruct (x =? k) eqn:Exk; cbn; rewrite IHx.
+  - apply N.eqb_eq in Exk. subst x. destruct (k' =? k); cbn; [rewrite !andb_false_r; reflexivity|reflexivity].
+  - destruct (k' =? x) eqn:E1; cbn; [|reflexivity]. apply N.eqb_eq in E1. subst k'. rewrite Exk. reflexivity.
+Qed.
+
+Lemma in_remove s k k' e : In (k', e) (remove s k) -> k' <> k /\ In (k', e) s.
+Proof. induction s as [|[k0 e0] r IH]; cbn; [tauto|]. destruct (N.eqb_spec k k0) as [->|H0].
+  - intros H. destruct (IH H). auto.
+  - cbn. intros [H|H]; [inversion H; subst; split; [congruence|auto]|destruct (IH H); auto]. Qed.
+
+Lemma ldb_inv_put s k v t : ldb_inv s -> ldb_inv (fst (ldb_put s k v t)).
+Proof. intros H. unfold ldb_put. destruct (valid_put k v t); [|exact H]. cbn [fst snd].
+  intros k' e Hin n Hn. cbn [fst snd] in *. rewrite in_keys_fold_add. unfold put in Hin. destruct Hin as [E|Hin].
+  - inversion E; subst. rewrite N.eqb_refl. cbn [andb]. unfold has_name in Hn. cbn in Hn. rewrite Hn. apply orb_true_r.
+  - destruct (in_remove _ _ _ _ Hin) as [_ Hin']. rewrite (H k' e Hin' n Hn). reflexivity. Qed.
+Lemma ldb_inv_delete s k : ldb_inv s -> ldb_inv (fst (ldb_delete s k)).
+Proof. intros H. unfold ldb_delete. destruct (k =? 0); [exact H|]. cbn [fst snd].
+  intros k' e Hin n Hn. cbn [fst snd] in *. destruct (in_remove _ _ _ _ Hin) as [Hne Hin']. rewrite in_keys_tm_del, (H k' e Hin' n Hn).
+  destruct (N.eqb_spec k' k); [contradiction|reflexivity]. Qed.
+Lemma ldb_inv_batch b : forall s, ldb_inv s -> ldb_inv (fst (ldb_batch s b)).
+Proof. induction b as [|[[k v] t] r IH]; intros s H; [exact H|]. cbn [ldb_batch]. destruct (v =? 0).
+  - pose proof (ldb_inv_delete s k H) as H1. destruct (ldb_delete s k) as [s1 x]. cbn [fst] in H1. destruct x; try exact H1. apply IH; exact H1.
+  - pose proof (ldb_inv_put s k v t H) as H1. destruct (ldb_put s k v t) as [s1 x]. cbn [fst] in H1. destruct x; try exact H1. apply IH; exact H1. Qed.
+Lemma ldb_inv_step s o : ldb_inv s -> ldb_inv (fst (ldb_step s o)).
+Proof. intros H. destruct o as [k v t|k|k|ks|q|k|b| |]; cbn [ldb_step]; try exact H.
+  - apply ldb_inv_put; exact H.
+  - destruct (k =? 0); exact H.
+  - destruct (k =? 0); exact H.
+  - destruct (is_nil ks || has_empty_key ks); exact H.
+  - apply ldb_inv_delete; exact H.
+  - destruct (is_nil b); [exact H|apply ldb_inv_batch; exact H]. Qed.
+Lemma ldb_inv_init : ldb_inv (init leveldb).
+Proof. intros k e []. Qed.
+
+Lemma matches_has_name c e : matches c e = true -> has_name (fst c) e = true.
+Proof. unfold matches, has_name. induction (snd e) as [|tg r IH]; cbn; [auto|]. unfold tag_matches at 1.
+  destruct (fst tg =? fst c); cbn; [auto|exact IH]. Qed.
+Lemma matches_name_only n e : matches (n, 0) e = has_name n e.
+Proof. unfold matches, has_name, tag_matches. cbn. induction (snd e) as [|tg r IH]; cbn; [reflexivity|]. rewrite IH, andb_true_r. reflexivity. Qed.
+
+Lemma ldb_query_value s c : ldb_inv s -> (snd c =? 0) = false -> ldb_query s [c] = OQuery (qeval [c] (fst s)).
+Proof. intros H Hc. unfold ldb_query. rewrite Hc. f_equal. unfold qeval. apply filter_ext_in. intros [k e] Hin. cbn [fst snd forallb].
+  rewrite andb_true_r. destruct (matches c e) eqn:Em; [|apply andb_false_r].
+  rewrite (H k e Hin (fst c) (matches_has_name c e Em)). reflexivity. Qed.
+Lemma ldb_query_name s n : ldb_inv s -> index_exact s n = true -> ldb_query s [(n, 0)] = OQuery (qeval [(n, 0)] (fst s)).
+Proof. intros H Hx. unfold ldb_query. cbn [snd fst N.eqb]. f_equal. unfold qeval. apply filter_ext_in. intros [k e] Hin. cbn [fst snd forallb].
+  rewrite andb_true_r, matches_name_only. unfold index_exact in Hx. rewrite forallb_forall in Hx. specialize (Hx (k, e) Hin). cbn [fst snd] in Hx.
+  destruct (has_name n e) eqn:En; [apply (H k e Hin n En)|].
+  destruct (in_keys (tm_get (snd s) n) k); [discriminate|reflexivity]. Qed.
+(* the guard excludes exactly the stale class: where the index is not exact the answer differs from the contract's *)
+Lemma ldb_query_name_stale s n : index_exact s n = false -> ldb_query s [(n, 0)] <> OQuery (qeval [(n, 0)] (fst s)).
+Proof. intros Hx Heq. unfold ldb_query in Heq. cbn [snd fst N.eqb] in Heq. inversion Heq as [Hf]. clear Heq.
+  unfold index_exact in Hx.
+  assert (Hex : exists ke, In ke (fst s) /\ in_keys (tm_get (snd s) n) (fst ke) = true /\ has_name n (snd ke) = false).
+  { clear Hf. induction (fst s) as [|x r IH]; cbn in Hx; [discriminate|]. apply andb_false_iff in Hx as [Hx|Hx].
+    - exists x. split; [left; reflexivity|]. destruct (in_keys (tm_get (snd s) n) (fst x)), (has_name n (snd x)); try discriminate. auto.
+    - destruct (IH Hx) as [ke [H1 H2]]. exists ke. split; [right; exact H1|exact H2]. }
+  destruct Hex as [ke [Hin [Hi Hn]]].
+  assert (H1 : In ke (filter (fun ke0 => in_keys (tm_get (snd s) n) (fst ke0)) (fst s))) by (apply filter_In; auto).
+  rewrite Hf in H1. unfold qeval in H1. apply filter_In in H1 as [_ H1]. cbn [forallb] in H1.
+  rewrite matches_name_only, Hn in H1. discriminate. Qed.
+
+Lemma ldb_run_refines ops : forall s, ldb_inv s -> ldb_run_ok s ops = true ->
+  run leveldb s ops = run (spec_prov true) (fst s) ops.
+Proof.
+  induction ops as [|o r IH]; intros s Hinv Hok; [reflexivity|]. cbn [ldb_run_ok] in Hok. apply andb_prop in Hok as [Hg Hr].
+  cbn [run step leveldb spec_prov].
+  assert (Hstep : fst (fst (ldb_step s o)) = fst (spec_step true (fst s) o) /\ snd (ldb_step s o) = snd (spec_step true (fst s) o)).
+  { destruct o as [k v t|k|k|ks|q|k|b| |].
+    - apply (ldb_sim s (fst s) (Put k v t) eq_refl eq_refl).
+    - apply (ldb_sim s (fst s) (Get k) eq_refl eq_refl).
+    - apply (ldb_sim s (fst s) (GetTags k) eq_refl eq_refl).
+    - apply (ldb_sim s (fst s) (GetBulk ks) eq_refl eq_refl).
+    - destruct q as [|c [|c2 q2]]; [cbn; auto| |discriminate]. cbn [ldb_step spec_step is_nil fst snd]. split; [reflexivity|].
+      cbn [ldb_guard] in Hg. destruct (snd c =? 0) eqn:Ec.
+      + destruct c as [n v0]. cbn [fst snd] in *. apply N.eqb_eq in Ec. subst v0. apply ldb_query_name; assumption.
+      + apply ldb_query_value; assumption.
+    - apply (ldb_sim s (fst s) (Delete k) eq_refl eq_refl).
+    - apply (ldb_sim s (fst s) (Batch b) Hg eq_refl).
+    - apply (ldb_sim s (fst s) Flush eq_refl eq_refl).
+    - apply (ldb_sim s (fst s) Reopen eq_refl eq_refl). }
+  destruct Hstep as [H1 H2]. pose proof (ldb_inv_step s o Hinv) as Hinv'.
+  specialize (IH (fst (ldb_step s o)) Hinv' Hr).
+  destruct (ldb_step s o) as [s1 x]. destruct (spec_step true (fst s) o) as [a1 x']. cbn [fst snd] in *. subst x'. f_equal.
+  rewrite IH, H1. reflexivity.
+Qed.
